@@ -136,11 +136,30 @@ class Case:
         self.config, self.view, self.why, self.sid, self.superfluous = config or {}, view, why, sid, superfluous
 
 
-def run_case(case, spr=False, std=None):
-    """returns (frames sent, verdict, exception)"""
+def run_case(case, spr=False, std=None, after=None):
+    """returns (frames sent, verdict, exception).  `after`: something that happened on the same client before the call and is over when the call is
+    made - a suppress block left by an exception ('spr_exc': a negative reply under wait_nrc) or normally ('spr_ok'), a payload-override block
+    left by an exception ('ovr_exc'): none of them may show in the frame of the call"""
     extra = dict(case.config)
     cfg = cl.Cfg(rt=4, p2=2, p2s=2, std=std or extra.pop('standard_version', 2020))
     client, conn = cl.make_client(cfg, extra=extra)
+    if after == 'spr_exc':
+        conn.script = [(0, b'\x7f\x3e\x31')]
+        try:
+            with client.suppress_positive_response(wait_nrc=True):
+                client.tester_present()
+        except Exception:  # noqa
+            pass
+    elif after == 'spr_ok':
+        with client.suppress_positive_response:
+            client.tester_present()
+    elif after == 'ovr_exc':
+        try:
+            with client.payload_override(b'\x11\x01'):
+                client.tester_present()
+        except Exception:  # noqa  (nobody answers 11 01 with a tester-present reply: timeout)
+            pass
+    conn.script = []
     try:
         if spr:
             with client.suppress_positive_response:
